@@ -160,7 +160,7 @@ def grid(rng, small=False):
 
 
 def judge(rec, op, key, kind, S, L, f, th, out, req, wind, rt, extra):
-    probs, inc = R.check(kind, S, L, f, th, out, req, wind=wind, hs_rtol=rt)
+    probs, inc = R.check(kind, S, L, f, th, out, req, wind=wind, hs_rtol=rt, weak_ok=True)
     if inc:
         rec.skip(op, inc)
         return
@@ -180,7 +180,13 @@ def numpy_level(ctx, rng, pmod, mr, utils):
     rec = ctx.rec
     f, th, fm, dmeta = grid(rng)
     cls = str(rng.choice(CLASSES))
-    S = make_spec(rng, f, th, cls)
+    zero_hz = len(f) >= 3 and rng.random() < 0.08
+    if zero_hz:
+        # a grid whose first bin is 0 Hz (valid: no phase speed there, so never wind sea, but its energy is kept)
+        f = np.linspace(0.0, float(f[-1]), len(f))
+    S = make_spec(rng, np.where(f > 0, f, f[1] / 2) if zero_hz else f, th, cls)
+    if zero_hz and rng.random() < 0.7:
+        S[0] = np.maximum(S[0], S.max() * rng.uniform(0.05, 0.6, len(th)))
     dt = str(rng.choice(["float64", "float32"]))
     # overall energy level: exact power-of-two rescalings (other units, millimetre sea states) leave every decision unchanged
     lvl = int(rng.choice([0, 0, 0, 0, -8, -16, -24, -30, 10]))
@@ -198,6 +204,9 @@ def numpy_level(ctx, rng, pmod, mr, utils):
         req = 1   # zero partitions of a method without a wind-sea slot is an empty request
     key = "%s|%s|%s|nf=%d|nd=%d|ihmax=%d|req=%s|level=2^%d" % (kind, cls, dt, len(f), len(th), ihmax,
                                                       "none" if req is None else ("lt" if req < det else ("eq" if req == det else "gt")), lvl)
+    if zero_hz:
+        key += "|first-bin-0Hz"
+        rec.note("grid_with_0Hz_bin")
     try:
         if kind == "ptm3":
             out = pmod.np_ptm3(S, smooth, f, th, parts=req, ihmax=ihmax)
